@@ -73,6 +73,7 @@ fn run_case(case: &Value) -> Value {
         "repeat_enabled": repeat_enabled,
         "fifo": kb.fifo_snapshot(), "isr": mem.read_internal_byte(ISR).unwrap_or(0),
         "irq_enabled": timer.keyboard_irq_enabled(),
+        "latched": timer.key_irq_latched,
     });
 
     let mut cycle: u64 = 0;
@@ -163,6 +164,7 @@ fn run_case(case: &Value) -> Value {
             "fifo": kb.fifo_snapshot(),
             "isr": mem.read_internal_byte(ISR).unwrap_or(0),
             "irq_enabled": timer.keyboard_irq_enabled(),
+            "latched": timer.key_irq_latched,
         }));
     }
     json!({"init": init, "obs": obs})
